@@ -812,6 +812,77 @@ Section Proofs.
     unfold fdiv. ring.
   Qed.
 
+  (* ---------------------------------------------------------------- normalisation, position-specific monomer model *)
+  Lemma suml_map_div (l : list R) t : suml o (map (fun x => x / t) l) = suml o l / t.
+  Proof. induction l as [|x l IH]; cbn; [unfold fdiv; ring|]. rewrite IH. unfold fdiv. ring. Qed.
+
+  (** a normalised vector sums to one *)
+  Theorem normalise_sum_one (raw : list R) : suml o raw <> 0 -> suml o (normalise o raw) = 1.
+  Proof. intros H. unfold normalise. rewrite suml_map_div. now apply fdiv_self. Qed.
+
+  (** word probabilities of the monomer / position-specific monomer models sum to one over the
+      model's OWN states (sense codons, motif subsets), whatever the monomer probabilities *)
+  Theorem monomer_word_probs_sum_one words mon :
+    suml o (map (fun w => prodl o (map (vget o mon) w)) words) <> 0 ->
+    suml o (monomer_word_probs o words mon) = 1.
+  Proof. intros H. unfold monomer_word_probs. rewrite suml_map_div. now apply fdiv_self. Qed.
+
+  Theorem posn_word_probs_sum_one words mons :
+    suml o (map (prod_pos o mons) words) <> 0 -> suml o (posn_word_probs o words mons) = 1.
+  Proof. apply normalise_sum_one. Qed.
+
+  Lemma diff_one_prod_pos ms : forall x y k d, length x = length y -> diff_pos k x y = [d] ->
+    prod_pos o ms x * vget o (nth (d - k) ms []) (nth (d - k) y 0%nat)
+    = prod_pos o ms y * vget o (nth (d - k) ms []) (nth (d - k) x 0%nat).
+  Proof.
+    induction ms as [|m ms IH]; intros x y k d Hl Hd.
+    - assert (E : forall z, vget o (nth (d - k) (@nil (list R)) []) z = 0)
+        by (intros z; unfold vget; destruct (d - k)%nat; destruct z; reflexivity).
+      cbn [prod_pos]. rewrite !E. ring.
+    - destruct x as [|a x], y as [|b y]; cbn [diff_pos] in Hd; try discriminate.
+      cbn in Hl. destruct (Nat.eqb a b) eqn:E.
+      + apply Nat.eqb_eq in E; subst b.
+        assert (Hge : (S k <= d)%nat) by (eapply diff_pos_ge; rewrite Hd; now left).
+        replace (d - k)%nat with (S (d - S k)) by lia. cbn [nth prod_pos].
+        assert (IH' := IH x y (S k) d (eq_add_S _ _ Hl) Hd).
+        transitivity (vget o m a * (prod_pos o ms x * vget o (nth (d - S k) ms []) (nth (d - S k) y 0%nat))); [ring|].
+        rewrite IH'. ring.
+      + injection Hd as Hk Hd. subst d. rewrite Nat.sub_diag. cbn [nth prod_pos].
+        rewrite (@diff_pos_nil x y (S k) (eq_add_S _ _ Hl) Hd). ring.
+  Qed.
+
+  Lemma vget_posn_word_probs words mons i : (i < length words)%nat ->
+    vget o (posn_word_probs o words mons) i
+    = prod_pos o mons (word words i) / suml o (map (prod_pos o mons) words).
+  Proof.
+    intros Hi. unfold posn_word_probs, normalise. rewrite vget_map by (now rewrite map_length). f_equal.
+    unfold vget, word.
+    rewrite (nth_indep _ 0 (prod_pos o mons [])) by (now rewrite map_length).
+    apply (map_nth (prod_pos o mons) words [] i).
+  Qed.
+
+  (** PosnSpecificMonomerProbModel: π_i · M_ij = π_j · M_ji *)
+  Theorem posn_balanced len words mons :
+    same_length len words ->
+    balanced o (length words) (vget o (posn_word_probs o words mons))
+             (get o (mpm_posn o (length words) words (inst_mask words) mons)).
+  Proof.
+    intros HL i j Hi Hj. unfold mpm_posn.
+    rewrite !(get_mk o) by assumption. unfold mutant_motif, mutated_posn.
+    rewrite (@bget_inst_mask words i j Hi Hj), (@bget_inst_mask words j i Hj Hi).
+    rewrite (is_instantaneous_sym (word words j) (word words i)).
+    destruct (is_instantaneous (word words i) (word words j)) eqn:E; [|ring].
+    destruct (is_instantaneous_one _ _ E) as [d Hd].
+    rewrite (diff_pos_sym (word words j) (word words i)), Hd.
+    rewrite !vget_posn_word_probs by assumption.
+    assert (Hlen : length (word words i) = length (word words j)) by (now rewrite !HL).
+    assert (P := @diff_one_prod_pos mons (word words i) (word words j) 0 d Hlen Hd).
+    rewrite Nat.sub_0_r in P. unfold fdiv.
+    set (T := finv o (suml o (map (prod_pos o mons) words))).
+    transitivity (prod_pos o mons (word words i) * vget o (nth d mons []) (nth d (word words j) 0%nat) * T); [ring|].
+    rewrite P. ring.
+  Qed.
+
   (* ---------------------------------------------------------------- exchangeabilities *)
   Definition mask_sym (n : nat) (m : bmask) : Prop :=
     forall i j, (i < n)%nat -> (j < n)%nat -> bget m i j = bget m j i.
